@@ -42,6 +42,18 @@ CHECKS = {
  "C06": ("exploration", "release monitor against the last observed external height and the external model's execution record, with heights swept around every live timeout",
          "Held on the histories observed: every batch returned to the pool without execution and every bridge call refunded by timeout is checked against the last observed external height (observed >= timeout) and against what the external model executed (no double spend); batches are born with a timeout above the observed height.",
          "The stricter comparison the code uses for batches (timeout < observed) is accepted; only observed < timeout is flagged.", "4 C06"),
+ "C08": ("exploration", "book-balance invariant monitor after every transaction over conversion histories and generated mixed token/precompile contract programs, plus targeted per-method probes",
+         "Held on the histories observed (apart from the listed known findings): escrow vs ERC-20 supply, module-held ERC-20 vs coin supply over all denominations, sum of balances vs supply and the pair/denom/contract/alias indexes vs bank metadata are evaluated after every conversion, governance update and generated contract program; each conversion's effect on every user is exact.",
+         "ERC-20 holders = every account the workload used + all auth accounts + module accounts.", "4 C08"),
+ "C09": ("fault_enumeration", "differential twin execution (discarded calls removed, same addresses) compared by full multistore diff and precompile logs, with a gas-limit sweep as fault injector",
+         "Held on the executions observed: generated call trees over every state-changing precompile method run at ample gas and at sampled gas limits from below intrinsic up to the ample consumption, directly and inside a catching wrapper; every execution equals its twin in which the discarded calls never ran.",
+         "Allowed differences: code/storage/account record of the generated program contracts, the sender's sequence when the whole transaction fails.", "4 C09"),
+ "C10": ("exploration", "portfolio monitor over all non-caller accounts, call-context matrix (STATICCALL/DELEGATECALL/CALLCODE/static-nested) with Cosmos-side store diff, governance switch with real parameter updates",
+         "Held on the calls observed (apart from the listed known finding): every state-changing method called by an attacker and by attacker contracts with arguments naming a victim's assets leaves every non-caller portfolio undiminished except exact allowance use; non-writable contexts fail with empty Cosmos-side diff; disabled addresses/methods (mixed case) cannot execute and re-enabling restores.",
+         "Pending rewards not part of the portfolio (zero inflation in this fixture).", "4 C10"),
+ "C11": ("exploration", "share-sum / crisis-invariant monitor after every operation, exact share-movement check, reward equality against a twin branch using plain withdraw, exit probe with real unbonding",
+         "Held on the histories observed: generated staking-precompile histories among EOAs and contract accounts with reward-producing blocks and validator slashing; sums of delegation shares equal validator shares, all registered invariants hold, transfers move exactly the shares, rewards equal the twin's, everybody can withdraw and fully undelegate and the funds arrive.",
+         "Real inflation is on in this fixture so that rewards are non-zero.", "4 C11"),
 }
 NOT_YET = {}
 def load_props():
